@@ -351,7 +351,7 @@ class ModelCacheMixin:
         if len(cached) > 0:
 
             def signed_key(v):
-                return v if v >= 0 else v + 2 ** len(e)
+                return v if v < 2 ** (len(e) - 1) else v - 2 ** len(e)
 
             return min(cached, key=signed_key if signed else lambda v: v)
 
